@@ -408,7 +408,7 @@ func sortStrings(s []string) {
 }
 
 var c17ResetGen = TreeGen{MaxDepth: 2, MaxWidth: 6, Budget: 14, Kinds: stackKinds,
-	Leaf: func(t *rapid.T) Val { return genPrimVal(t, true, true) }, Conds: true, NilLeaves: true, EmptyStacks: true, Options: true, Caps: true, IndexOpts: true, MutexOpt: true, FIFOOpt: true, ZooLeaves: true, Ambient: true, WideRuns: true, NoNestAfter: true}
+	Leaf: func(t *rapid.T) Val { return genPrimVal(t, true, true) }, Conds: true, NilLeaves: true, EmptyStacks: true, Options: true, Caps: true, IndexOpts: true, MutexOpt: true, FIFOOpt: true, ZooLeaves: true, OddEncap: true, Ambient: true, WideRuns: true, NoNestAfter: true}
 
 func genC17(t *rapid.T, tier Tier) C17Case {
 	switch rapid.IntRange(0, 9).Draw(t, "mode") {
